@@ -69,7 +69,9 @@ def replay(ctx, cases):
         comp = mon.H()
         for m, a in c['history']:
             try:
-                if m == 'add_jumper':
+                if m == 'read':
+                    hj.READERS[a](comp)
+                elif m == 'add_jumper':
                     comp.add_jumper(bib=a)
                 elif m == 'set_bar_height':
                     comp.set_bar_height(Decimal(a))
